@@ -711,6 +711,16 @@ func (e *Exec) intBinop(st *State, x *ssa.BinOp, a, b Val) {
 		e.setTerm(st, x, fmt.Sprintf("(bvmul %s %s)", a.S, b.S))
 	case token.QUO:
 		e.check(st, "div", e.srcText(x.Pos()), not(eq(b.S, bvLit(big.NewInt(0), w))), x.Pos())
+		if signed && w == 64 && e.abstractFlag("abstract_quo", x.Type()) {
+			// sound abstraction: the quotient as an uninterpreted function of its operands
+			// (`abstract_quo int64`: nothing proved may depend on its value)
+			if !e.sc.funs["squo64"] {
+				e.sc.funs["squo64"] = true
+				e.sc.emit("(declare-fun squo64 ((_ BitVec 64) (_ BitVec 64)) (_ BitVec 64))")
+			}
+			e.setTerm(st, x, fmt.Sprintf("(squo64 %s %s)", a.S, b.S))
+			break
+		}
 		if signed {
 			e.setTerm(st, x, fmt.Sprintf("(bvsdiv %s %s)", a.S, b.S))
 		} else {
